@@ -108,6 +108,23 @@ theorem model_canonical_properties {basis : Array W} {n : Nat} {Inv : Pos → Pr
       (NC _ (Or.inr (Or.inl rfl)))
   · exact canonical_refines F hn out out (canonical_idempotent n ms out pEnd h h1) (NC out (Or.inr (Or.inr h1)))
 
+/-- **C15 for the bit-level model on 3×3 … 6×6**, assuming only the absence of hash collisions: the model of
+`Canonical` maps every legal game to a legal game of the same length whose prefixes reach images of the
+original prefix positions, gives the same answer for all eight images of the game, and maps its own output to
+itself. -/
+theorem model_canonical_properties_default (basis : Array W) {n : Nat} (hn : n ∈ [3, 4, 5, 6]) (g : Sym)
+    (ms : List Tak.Move) (pEnd : State) (h : replay (startState n) ms = some pEnd)
+    (NC : ∀ game : List Tak.Move, (game = ms ∨ game = ms.map (g.raw n) ∨ canon n ms = some game) →
+      ∀ pre st, pre <+: game → canonRun ⟨startState n, 0, []⟩ pre = some st → NoCollisionAt (InvB basis) st.b0) :
+    ∃ out, Tak.canonical basis n ms = .ok out ∧ out.length = ms.length ∧
+      (∀ t, t ≤ ms.length → ∃ (k : Sym) (pt : State), replay (startState n) (ms.take t) = some pt ∧
+        replay (startState n) (out.take t) = some (k.state pt)) ∧
+      Tak.canonical basis n (ms.map (g.raw n)) = .ok out ∧
+      Tak.canonical basis n out = .ok out := by
+  have h6 : n ≤ 6 := by simp at hn; omega
+  have h8 : n ∈ [3, 4, 5, 6, 7, 8] := by simp at hn ⊢; omega
+  exact model_canonical_properties (posFacts2_default basis n h6) h8 g ms pEnd h NC
+
 /-- the list-level preference is the model's `preferMove` -/
 theorem prefer_eq (l r : Tak.Move) : Spec.prefer l r = Tak.preferMove l r := rfl
 
